@@ -354,6 +354,14 @@ fn class_of(kinds: &[CallKind], n: i64) -> &'static str {
     }
 }
 
+fn kc_wrong_after_a_step(stim: &Stimulus, reference: &Observed, run: &Result<Run, RunErr>) -> bool {
+    let Ok(run) = run else { return false };
+    let Some(oi) = stim.outputs.iter().position(|p| p.name == "o_kc") else {
+        return false;
+    };
+    reference.steps.iter().zip(&run.obs.steps).any(|(a, b)| a.get(oi) != b.get(oi))
+}
+
 pub struct CaseOpts {
     pub all_points: bool,
     /// per-mille rate at which the swap point of the known finding is kept
@@ -507,6 +515,11 @@ pub fn evaluate(d: &mut Draw, text: &str, stim: &Stimulus, presample: bool, opts
             let first: String = x.lines().next().unwrap_or("").chars().filter(|c| !c.is_ascii_digit()).take(70).collect();
             format!("panic-after-swap:{first}")
         }
+        // the known defect loses the constant cone for ONE settle: a purely
+        // combinational output of the cone (`o_kc`, added by `augment`) is
+        // wrong before the first step only.  Wrong after a step as well =
+        // the cone stays unevaluated = another defect.
+        (Some(_), CallKind::Main) if n == 1 && kc_wrong_after_a_step(stim, &reference.obs, &fresh) => "const-cone-stays-unevaluated-after-swap-in-first-settle".to_string(),
         (Some(_), CallKind::Main) if n == 1 => KF_FIRST_SETTLE.to_string(),
         (Some(_), CallKind::Main) => "swap-between-const-and-main-dispatch".to_string(),
         (Some(_), CallKind::Const) => "swap-at-settle-boundary".to_string(),
